@@ -122,9 +122,18 @@ Example C05_example_render_then_data :
              ws_body st = WList [[100; 97; 116; 97]] /\ h_clen (ws_headers st) = Some [52].
 Proof. eexists. split; [reflexivity|]. vm_compute. auto. Qed.
 
+(* close_once (and the whole framing) for every KIND of failure of the stream or of send:
+   Exception, BaseException, asyncio.CancelledError / task cancellation. *)
+Theorem C05_close_once_all_faults : forall i (fa : option (nat * fault)) o,
+  status_wf (i_status i) = true -> typeless_media i = false ->
+  asgi_emit_f i fa = Some o ->
+  close_ok i (ao_reads o) (ao_closes o) = true /\ events_ok i o = true /\ oracle_asgi i o = [].
+Proof. exact close_once_all_faults. Qed.
+Print Assumptions C05_close_once_all_faults.
+
 (* ---- non-vacuity *)
 Definition ex_stream : stream :=
-  {| k_kind := KIter; k_chunks := [Some [97; 98]; Some [99]]; k_raises := true; k_has_close := true |}.
+  {| k_kind := KIter; k_chunks := [Some [97; 98]; Some [99]]; k_raises := Some FCancel; k_has_close := true |}.
 Definition ex_input : input :=
   {| i_head := false; i_status := SLine [50; 48; 48; 32; 70; 105; 110; 101]; i_text := None;
      i_data := None; i_media := None; i_stream := Some ex_stream; i_sse := None;
@@ -132,7 +141,7 @@ Definition ex_input : input :=
 
 Example C05_example_stream_send_failure :
   status_wf (i_status ex_input) = true /\ typeless_media ex_input = false /\
-  exists o, asgi_emit ex_input (Some 2%nat) = Some o /\
+  exists o, asgi_emit_f ex_input (Some (2%nat, FCancel)) = Some o /\
             ao_events o = [AStart 200 {| h_clen := None; h_ctype := Some default_media_type |};
                            ABody [97; 98] true] /\
             ao_raised o = true /\ ao_reads o = 2%nat /\ ao_closes o = 1%nat.
